@@ -30,6 +30,26 @@ var metas = map[string]PropMeta{
 		NotDecided:  []string{"nothing beyond the trusted base: the rules cover every position of the model"},
 		Assumptions: idxAssume,
 	},
+	"C15": {
+		Explanation: "Nil-guard dataflow over the four lookups (sources: pointer/map fields of go-openapi/spec structs, map lookups of *spec.T without comma-ok), guard rules on the merge function found by role (takes []spec.Parameter, map[string]spec.Parameter, callback), ordering of the two merge calls in each lookup, exhaustiveness of the id lookup over the seven methods.",
+		NotDecided:  []string{"collisions of the override key location#GoName", "what jsonpointer returns for exotic $ref targets (trusted base)"},
+		Assumptions: []string{"a call does not nil-out a field of a value it receives", "function results and parameters of exported functions are not maybe-nil sources (only optional fields of the loaded document are)"},
+	},
+	"C17": {
+		Explanation: "Guard-dominance rules over structural path conditions for every store into the primary reachable from Mixin, structured path enumeration of each reporting merge loop, flow of every helper's collision list into the result, coverage of the sections named in the statement (from write-effect summaries), write set rooted at the primary only, nil-guard dataflow including initPrimary's ensures-summary.",
+		NotDecided:  []string{"reflect.DeepEqual on security requirements", "exact collision count for inputs where one key collides in several helpers at once beyond one entry per colliding key per helper"},
+		Assumptions: []string{"range over a slice visits mixins in order (language semantics)", "a call does not nil-out a field of a value it receives"},
+	},
+	"C18": {
+		Explanation: "Exhaustiveness of the operation enumerator over PathItemProps, and guard/ordering rules at the single rename site: only on collision, only for non-empty ids, new id built from old id + 'Mixin' + index, recorded afterwards on every path, primary ids collected first.",
+		NotDecided:  []string{"uniqueness when the precondition of the statement is violated"},
+		Assumptions: []string{"ids are compared as Go strings"},
+	},
+	"C19": {
+		Explanation: "COV-METHODS, NIL-DEREF, GUARD-DESC, LOST-UPDATE and WRITESET over FixEmptyResponseDescriptions and everything it reaches.",
+		NotDecided:  []string{},
+		Assumptions: []string{"Ref.GetURL() != nil characterises a $ref response (go-openapi/jsonreference)"},
+	},
 	"C16": {
 		Explanation: "Write-effect summaries: for New and each of the exported *Spec methods, the transitive set of stores (assignments to fields/elements/pointees, delete, in-place external mutators such as sort.* and spec.Expand*) is computed with targets as access paths; stores into locals created in the call and into value copies are dropped; what remains must be empty. No goroutine/channel operation is reachable; the pattern/enum getters return maps allocated in the call.",
 		NotDecided:  []string{"element slices shared by the cloned enum maps (outside the statement)", "thread-safety of the read-only external callees (trusted base)"},
